@@ -258,6 +258,8 @@ class Program:
             init = ci.methods.get("__init__")
             if init is not None:
                 for n in ast.walk(init.node):
+                    if isinstance(n, ast.AnnAssign) and n.value is not None:
+                        n = ast.copy_location(ast.Assign(targets=[n.target], value=n.value), n)     # self.x: T = v  is  self.x = v
                     if isinstance(n, ast.Assign) and len(n.targets) == 1:
                         t = n.targets[0]
                         if (isinstance(t, ast.Attribute) and isinstance(t.value, ast.Name)
